@@ -32,6 +32,9 @@ type c11Cycle struct {
 	Keys  []int  `json:"keys"`
 	Drain string `json:"drain"` // none, one, half, all, all+extra
 	Twice bool   `json:"finalise_called_twice,omitempty"`
+	// Faulted: the sorter's directory is missing during this cycle, so its spills fail; the directory is put back and
+	// Clear called before the next cycle, which is held to the property like any other ("whatever earlier cycles did").
+	Faulted bool `json:"directory_missing_during_this_cycle,omitempty"`
 }
 
 type c11Hist struct {
@@ -53,6 +56,9 @@ func (h c11Hist) word() string {
 		w += fmt.Sprintf("%s:%d:%s;", mode, len(c.Keys), c.Drain)
 		if c.Twice {
 			w += "F2;"
+		}
+		if c.Faulted {
+			w += "X;"
 		}
 	}
 	return w
@@ -85,6 +91,13 @@ func c11GenHist(rng *rand.Rand, maxCycles int) c11Hist {
 	}
 	// AutoClean: the first cycle drained to io.EOF is the sorter's last (the history stops there)
 	h.AutoClean = rng.Intn(6) == 0
+	if !h.AutoClean && !big {
+		for i := 0; i+1 < len(h.Cycles); i++ {
+			if len(h.Cycles[i].Keys) >= h.Chunk && rng.Intn(8) == 0 {
+				h.Cycles[i].Faulted = true
+			}
+		}
+	}
 	return h
 }
 
@@ -131,6 +144,8 @@ type c11Result struct {
 	spills      int
 	memCycles   int
 	pulls       int
+	faulted     int    // cycles run with the directory missing
+	faultedSeen int    // ... in which Push or Finalise reported an error
 	dir         string // the sorter's scratch parent directory (caller removes it)
 	residue     []string
 }
@@ -167,7 +182,41 @@ func c11RunHist(r *obs.Run, h c11Hist, scratch string, checkResidue bool) (res c
 	payload := 0
 	cleanedByAutoClean := false
 	for ci, cyc := range h.Cycles {
-		when := func(s string) string { return fmt.Sprintf("cycle %d (%d pushes, chunk %d): %s", ci, len(cyc.Keys), h.Chunk, s) }
+		when := func(s string) string {
+			return fmt.Sprintf("cycle %d (%d pushes, chunk %d): %s", ci, len(cyc.Keys), h.Chunk, s)
+		}
+		if cyc.Faulted && sorterDir != "" {
+			// a cycle that goes wrong: its errors are C13's business, the cycles after it are this property's
+			os.RemoveAll(sorterDir)
+			sawErr := false
+			for _, k := range cyc.Keys {
+				var e morass.LessInterface = c11Int(k)
+				if h.Struct {
+					e = c11S{K: k, P: -1}
+				}
+				if err := m.Push(e); err != nil {
+					sawErr = true
+					break
+				}
+			}
+			if err := m.Finalise(); err != nil {
+				sawErr = true
+			}
+			if err := os.Mkdir(sorterDir, 0700); err != nil {
+				return fail("harness", "cannot put the sorter's directory back: "+err.Error())
+			}
+			if err := m.Clear(); err != nil {
+				return fail("clear-error", when("Clear after a cycle whose spills failed returned "+err.Error()))
+			}
+			if m.Len() != 0 || m.Pos() != 0 {
+				return fail("pos-len", when(fmt.Sprintf("after Clear Pos=%d Len=%d", m.Pos(), m.Len())))
+			}
+			res.faulted++
+			if sawErr {
+				res.faultedSeen++
+			}
+			continue
+		}
 		type kv struct{ k, p int }
 		var pushed []kv
 		for i, k := range cyc.Keys {
@@ -375,6 +424,8 @@ func c11Case(r *obs.Run, i int) {
 	}()
 	r.Count("histories", 1)
 	r.Count("cycles_spilled", int64(res.spills))
+	r.Count("earlier_cycles_with_failed_spills", int64(res.faulted))
+	r.Count("earlier_cycles_with_failed_spills_that_reported_an_error", int64(res.faultedSeen))
 	r.Count("cycles_in_memory", int64(res.memCycles))
 	r.Count("pulls", int64(res.pulls))
 	if h.Concurrent {
